@@ -272,5 +272,11 @@ func writeSlices(sw *bufio.Writer, s *vt.Sched, tag string) int {
 	if want("disp") {
 		n += writeDispSlices(sw, s, tag)
 	}
+	if want("wake") {
+		n += writeWakeSlices(sw, s, tag)
+	}
+	if want("resp") {
+		n += writeRespSlices(sw, s, tag)
+	}
 	return n
 }
